@@ -303,6 +303,36 @@ func (r *run) dispatch(e Ev) {
 		p.lastCalls = nil
 		r.local(p, p.api, e, nil)
 		r.afterStep(p)
+	case "burst":
+		// a long offline period: more than a thousand operations wait for the next push, and a
+		// transaction sits where the thousand-and-twenty-fourth falls
+		if r.patched || (r.cfg.Kind != "counter" && r.cfg.Kind != "map") {
+			return
+		}
+		p := r.rep(e.R)
+		p.lastCalls = nil
+		n := 1000 + mod(e.N, 40)
+		for i := 0; i < n; i++ {
+			b := Ev{T: "local", R: e.R, Op: "inc", D: int32(i%7 + 1), K: fmt.Sprintf("b%d", i%3), V: []interface{}{float64(i)}}
+			if r.cfg.Kind == "map" {
+				b.Op = "put"
+			}
+			r.local(p, p.api, b, nil)
+		}
+		r.probe("burst")
+		r.afterStep(p)
+		for k := 0; k < 3; k++ {
+			tx := Ev{T: "tx", R: e.R}
+			for j := 0; j < 12; j++ {
+				b := Ev{T: "local", R: e.R, Op: "inc", D: int32(j + 1), K: fmt.Sprintf("b%d", j%3), V: []interface{}{float64(j)}}
+				if r.cfg.Kind == "map" {
+					b.Op = "put"
+				}
+				tx.Body = append(tx.Body, b)
+			}
+			r.tx(p, tx)
+			r.afterStep(p)
+		}
 	case "tx":
 		if r.patched {
 			return
